@@ -20,6 +20,10 @@ TECH = "deterministic simulation with fault injection: seeded search over operat
 CLAIMED = {
  "C04": ("Seeded exploration: every run drives one real bufiox reader (io.Reader-backed over a simulated Source, or bytes-backed) through a random history of Next/Peek/Skip/ReadBinary/Release with boundary-valued sizes under a per-run delivery profile (1-byte/short/fill/request-relative chunks, zero-byte reads, stall, terminal error of five kinds at any offset, data with or before the error), allocator modes (ledger+poison / real) and an adversarial co-tenant, and compares every result with a cursor-over-bytes model, then drains the stream. Sampling, not proof; the right level because the property quantifies over histories x fault sequences, which only many diverse seeded runs can reach.",
          "Trusted: the reference model (cursor over the keyed stream), the Source stub honouring io.Reader's contract, the allocator shim. Zero-read streaks are kept <= 8 (far below the conventional 100 bound); a permanent stall must end in any non-nil error.", "4 C04"),
+ "C05": ("Seeded exploration: every run drives one real bufiox writer (io.Writer-backed over a simulated Sink, or bytes-backed over nil/empty/partly filled/full caller slices) through a random history of Malloc/WriteBinary/late, partial and repeated region fills/Flush with sizes from 0 to several buffers, with the Sink failing at a tape-chosen k-th write after accepting a strict prefix, allocator modes and co-tenant; compared with a region-list model (exactly once, in order, WrittenLen, returned and sticky error, sink prefix after failure, target slice of the bytes writer).",
+         "Trusted: the region-list model, the Sink stub (never a short write with nil error), the allocator shim. After a sink failure only stickiness and the prefix property are demanded. Multi-flush bytes-backed writers are not generated (undefined by the property).", "4 C05"),
+ "C09": ("Seeded exploration of retention histories: every zero-copy slice returned by Next/Peek is kept and re-verified after every later operation, co-tenant step and pool flush until the next Release; writer regions are filled late/partially/repeatedly up to the Flush; caller memory is registered with the allocator shim and compared with snapshots. Runs under three allocator modes: ledger+poison (double/interior/caller-memory free and write-after-free detected at the call), fence (every buffer its own mmap region, PROT_NONE after Free plus guard page: any access after recycle faults and is attributed), and the real mcache with the co-tenant as the only adversary.",
+         "Trusted: the allocator shim's ledger and fence bookkeeping, the keyed-content comparison. 'Never read again after recycle' is decided precisely only in fence mode; in ledger mode reads after free show up as poison in results.", "4 C09"),
 }
 PLANNED = ["C01","C02","C05","C06","C08","C09","C10","C12","C14","C16","C17"]
 
